@@ -94,13 +94,13 @@ func c14Repo(scn c14Scn) *ref.Repo {
 }
 
 type c14Obs struct {
-	Err     string
-	Panic   string
-	Got     map[uint16]*ipmi.FullSensorRecord
-	Final   *ref.Repo
-	Mods    []string
-	Sends   int
-	Runaway bool
+	Err      string
+	Panic    string
+	Got      map[uint16]*ipmi.FullSensorRecord
+	Final    *ref.Repo
+	Mods     []string
+	Sends    int
+	Runaway  bool
 	Problems []string
 	// Snaps are the repository states: initial, then after each modification;
 	// MustSee is the index of the last state whose modification bumped a
